@@ -3,4 +3,4 @@
 cd /verif
 /venv/bin/python tools/gen_locals.py | tail -1
 for p in seeded/*/patch.diff neutral/*/patch.diff; do git -C /repo apply --check /verif/$p 2>/dev/null || echo "STALE $p"; done
-tools/runall.sh 2>&1 | tail -1 | grep -o "C[0-9]* rc=[1-9][0-9]*" ; echo "(non-zero checks listed above, none if empty)"
+tools/runall.sh 2>&1 | grep -o "C[0-9]* rc=[1-9][0-9]*" ; echo "(non-zero checks listed above, none if empty)"
